@@ -1073,6 +1073,10 @@ class MapAsyncInsertJob(MapAsyncNode):
                        text='Q == old(Q) and len(Q) >= p and delta == 0'),
                 Clause('C05.hold_moves_into_the_queue', ['C05', 'C04'], when='return', text='delta == 0',
                        note='the hold taken by update() now accounts for the queued job'),
+                Clause('C16.failing_mapped_function_leaves_queue_and_holds_untouched', ['C16', 'C05', 'C02'], when='raise',
+                       text='Q == old(Q) and delta == 0 and emitted == []',
+                       note='the mapped function raised when called: the failure travels through the task returned by update(); '
+                            'nothing is queued or emitted and the element is not released (no checkpoint for a failed element)'),
                 ] + self.segment_clauses()
 
 
